@@ -422,6 +422,7 @@ func runC03(r *engine.Run) {
 			c.Eval()
 			p := build()
 			err := p.EncryptFRMPayload(keyOf(key))
+			observe(p)
 			if err != nil {
 				c.Fail("method/frm/encrypt-error", fmt.Sprintf("frame %x: %v", f.Msg(), err), nil)
 			} else {
@@ -462,6 +463,7 @@ func runC03(r *engine.Run) {
 			c.Eval()
 			p := build()
 			err := p.EncryptFOpts(keyOf(key))
+			observe(p) // the sender logs the frame it has encrypted
 			afd := !uplink && port > 0
 			if len(f.FOpts) > 15 {
 				// lossless-or-error: both operations must refuse, or transform
